@@ -42,6 +42,8 @@ type Engine struct {
 	ghostFieldTypes map[*GhostField]types.Type
 	axiomNames      []string
 	debug           bool
+	implCache       map[string][]types.Type
+	impClosure      map[*types.Package]map[*types.Package]bool
 }
 
 type Val struct {
